@@ -146,8 +146,8 @@ type Ctx struct {
 	ReplayHit   bool
 	ReplayVio   []Violation
 
-	progress *int64 // atomically advanced per case (stall watchdog)
-	curFile  *os.File
+	progress  *int64 // atomically advanced per case (stall watchdog)
+	curFile   *os.File
 	replayDir string
 }
 
@@ -182,6 +182,11 @@ func (c *Ctx) Case(input string, fn func()) {
 	}
 	fn()
 }
+
+// CallGuard, when set (step-sanitizer build), arms a step budget for one guarded call if none is
+// armed yet and returns the function that disarms it: a loop that never ends is then a budget
+// violation wherever it is entered from, not only inside the calls a check budgets itself.
+var CallGuard func(inputLen int) (restore func())
 
 // BeforeCase, when set, runs before every 8th case: the property packages use it to make
 // unrelated calls into the library (failing ones above all) in between the cases, so that state
@@ -267,6 +272,9 @@ func (c *Ctx) Call(what string, fn func()) (ok bool) {
 			c.Violate("panic:"+what+":"+panicSite(st), "panic in %s: %v\n%s", what, r, trunc(st, 1500))
 		}
 	}()
+	if CallGuard != nil {
+		defer CallGuard(len(c.curInput))()
+	}
 	fn()
 	return true
 }
